@@ -17,6 +17,9 @@ pub enum Case {
     Sign { c: u8, d: Vec<u8>, hv: Vec<u8>, extra: Vec<u8>, mutation: u8, pos: u16, val: u8 },
     /// forged-valid signature with chosen s and nonce k: h = s*k - r*d (the hash is a caller input), re-encoded on `len` bytes per half
     Forged { c: u8, d: Vec<u8>, k: Vec<u8>, s: Vec<u8>, half_len: u8, pad: u8 },
+    /// R chosen by its x-coordinate (x in [n, p): r = x - n; or x < p - n: r = x, also presented as x + n), s and h arbitrary,
+    /// public key Q = (sR - hG)/r: exercises the reduction of x(R) modulo n at the end of verification
+    WrapX { c: u8, xoff: Vec<u8>, above_n: bool, odd: bool, s: Vec<u8>, h: Vec<u8>, present_unreduced: bool, half_len: u8 },
     /// r, s from boundary sets with arbitrary hash
     Range { c: u8, d: Vec<u8>, r: Vec<u8>, s: Vec<u8>, hv: Vec<u8>, half_len: u8 },
     /// arbitrary signature / public key bytes
@@ -170,6 +173,43 @@ fn check(case: &Case) -> Outcome {
             acc.tag("forged_with_chosen_s");
             compare(&mut acc, *c, &pk, &sig, &hv);
         }
+        Case::WrapX { c, xoff, above_n, odd, s, h, present_unreduced, half_len } => {
+            let sch = &schemes()[*c as usize];
+            let n = &sch.curve.order;
+            let p = sch.curve.p.clone();
+            let gap = &p - n; // x(R) in [n, p) <=> x(R) - n in [0, gap)
+            let mut off = pf::from_le(xoff) % &gap;
+            // first x >= candidate that is the abscissa of a curve point
+            let mut rp = None;
+            for _ in 0..64 {
+                let x = if *above_n { n + &off } else { off.clone() };
+                if x < p && !(x.clone() % n).is_zero() {
+                    let mut e = vec![if *odd { 3u8 } else { 2u8 }];
+                    e.extend(pf::to_be(&x, 32));
+                    if let Some(pt) = sch.curve.decode(&e) {
+                        rp = Some((x, pt));
+                        break;
+                    }
+                }
+                off += 1u32;
+            }
+            let Some((x, rpt)) = rp else { acc.nt(false); return acc.done() };
+            let r = &x % n;
+            let si = (pf::from_le(s) % (n - 1u32)) + 1u32;
+            let hi = pf::from_le(h) % n;
+            // Q = (s R - h G) / r
+            let t = sch.curve.sub(&sch.curve.mul(&si, &rpt), &sch.curve.mulgen(&hi));
+            let q = sch.curve.mul(&pf::inv(&r, n), &t);
+            if q == Pt::Inf { acc.nt(false); return acc.done(); }
+            let pk = sch.curve.encode_uncompressed(&q);
+            let hv = pf::to_be(&hi, 32);
+            // presented r: the reduced value (valid), or the unreduced abscissa / r + n (out of range: must be rejected)
+            let rr = if *present_unreduced { if *above_n { x.clone() } else { &r + n } } else { r.clone() };
+            let sig = encode_halves(&rr, &si, *half_len, 0);
+            acc.tag(if *above_n { "xR_in_[n,p)" } else { "xR_below_p-n" });
+            acc.tag(if *present_unreduced { "r_presented_unreduced" } else { "r_presented_reduced" });
+            compare(&mut acc, *c, &pk, &sig, &hv);
+        }
         Case::Range { c, d, r, s, hv, half_len } => {
             let sch = &schemes()[*c as usize];
             let di = key_of(*c, d);
@@ -212,6 +252,7 @@ impl C08 {
             classes.push((cls(leak(format!("{n}/range")), 400, 40_000), c, 3));
             classes.push((cls(leak(format!("{n}/raw")), 300, 30_000), c, 4));
             classes.push((cls(leak(format!("{n}/key_decode")), 400, 40_000), c, 5));
+            classes.push((cls(leak(format!("{n}/xR_wraps_n")), 200, 20_000), c, 6));
         }
         C08 { classes }
     }
@@ -251,7 +292,7 @@ impl Property for C08 {
         "C08"
     }
     fn rule(&self) -> String {
-        "Cases (P-256 and secp256k1): sign = sign_hash(key incl. 1 and n-1, hash of length 0..100, extra randomness 0..100 bytes) must equal the documented derivation byte for byte (RFC 6979 HMAC-SHA-256 with the extra input in both keying steps for P-256; SHA-512(le key || le h || extra) mod n for secp256k1), be deterministic, 64 bytes with non-zero r, s, and verify - optionally after one mutation (bit flip, hash change within / beyond the first 32 bytes, zero-extended or non-zero-padded halves, compressed key, odd length); forged = signatures with chosen s and nonce through h = s*k - r*d, re-encoded on 1..70 bytes per half with zero / non-zero padding; range = r, s in {0,1,n-1,n,n+1,2^256-1,...}; raw = arbitrary key / signature / hash bytes; key decoding of private and public keys. Oracle: the verification predicate exactly as the property words it, in the reference model. All cases non-trivial; tags give the reference verdict and reason. distinct = distinct case hash.".into()
+        "Cases (P-256 and secp256k1): sign = sign_hash(key incl. 1 and n-1, hash of length 0..100, extra randomness 0..100 bytes) must equal the documented derivation byte for byte (RFC 6979 HMAC-SHA-256 with the extra input in both keying steps for P-256; SHA-512(le key || le h || extra) mod n for secp256k1), be deterministic, 64 bytes with non-zero r, s, and verify - optionally after one mutation (bit flip, hash change within / beyond the first 32 bytes, zero-extended or non-zero-padded halves, compressed key, odd length); xR_wraps_n = R chosen by abscissa with x(R) in [n, p) (r = x(R) - n must be accepted; the unreduced abscissa presented as r must be rejected) or x(R) < p - n (r accepted, r + n rejected), public key (sR - hG)/r; forged = signatures with chosen s and nonce through h = s*k - r*d, re-encoded on 1..70 bytes per half with zero / non-zero padding; range = r, s in {0,1,n-1,n,n+1,2^256-1,...}; raw = arbitrary key / signature / hash bytes; key decoding of private and public keys. Oracle: the verification predicate exactly as the property words it, in the reference model. All cases non-trivial; tags give the reference verdict and reason. distinct = distinct case hash.".into()
     }
     fn shard_size(&self) -> u64 {
         25
@@ -276,6 +317,12 @@ impl Property for C08 {
                 hash_strategy(),
             )
                 .prop_map(move |(pk, sig, hv)| Case::Raw { c, pk, sig, hv })
+                .boxed(),
+            6 => (
+                prop_oneof![2 => prop::collection::vec(any::<u8>(), 32), 1 => (0u8..8).prop_map(|i| vec![i]), 1 => (1u16..400).prop_map(move |i| { let sch = &schemes()[c as usize]; (sch.curve.p.clone() - &sch.curve.order - BigUint::from(i)).to_bytes_le() })],
+                any::<bool>(), any::<bool>(), boundary_int(c), prop::collection::vec(any::<u8>(), 32), prop::sample::select(vec![false, false, true]), prop::sample::select(vec![32u8, 32, 33, 40]),
+            )
+                .prop_map(move |(xoff, above_n, odd, s, h, present_unreduced, half_len)| Case::WrapX { c, xoff, above_n, odd, s, h, present_unreduced, half_len })
                 .boxed(),
             _ => prop_oneof![
                 (boundary_int(c), prop::sample::select(vec![32usize, 32, 32, 31, 33, 0])).prop_map(move |(x, l)| { let mut b = pf::from_le(&x).to_bytes_be(); if b.len() > l { b = b[b.len() - l..].to_vec(); } let mut v = vec![0u8; l - b.len()]; v.extend(b); Case::KeyDec { c, b: v, private: true } }),
